@@ -14,6 +14,7 @@ import (
 	"errors"
 	"fmt"
 	"io"
+	"math/big"
 	"sync"
 
 	"filippo.io/age"
@@ -29,12 +30,15 @@ var testdataFS embed.FS
 // ---- the random tape ----
 
 type tapeReader struct {
-	mu    sync.Mutex
-	tape  []byte
-	pos   int
-	sizes []int // sizes of the reads served (1-byte MaybeReadByte probes excluded)
-	probes int
-	fail  bool
+	mu       sync.Mutex
+	tape     []byte
+	pos      int
+	sizes    []int // sizes of the reads served (1-byte MaybeReadByte probes excluded)
+	probes   int
+	fail     bool
+	reads    int // non-probe reads seen
+	failAt   int // index of the non-probe read that fails ONCE (transient fault); -1 = none
+	injected int
 }
 
 var theTape = &tapeReader{}
@@ -57,6 +61,11 @@ func (t *tapeReader) Read(p []byte) (int, error) {
 		t.probes++
 		return 1, nil
 	}
+	t.reads++
+	if t.failAt >= 0 && t.reads-1 == t.failAt {
+		t.injected++
+		return 0, errors.New("entropy source failed (injected, transient)")
+	}
 	if t.pos+len(p) > len(t.tape) {
 		return 0, errors.New("tape exhausted")
 	}
@@ -72,7 +81,22 @@ func setTape(b []byte) {
 	theTape.pos = 0
 	theTape.sizes = nil
 	theTape.probes = 0
+	theTape.reads = 0
+	theTape.failAt = -1
+	theTape.injected = 0
 	theTape.mu.Unlock()
+}
+
+// setTapeFault: the k-th (0-based) non-probe read of the tape fails once.
+func setTapeFault(k int) {
+	theTape.mu.Lock()
+	theTape.failAt = k
+	theTape.mu.Unlock()
+}
+func tapeInjected() int {
+	theTape.mu.Lock()
+	defer theTape.mu.Unlock()
+	return theTape.injected
 }
 func clearTape() { setTape(nil) }
 func tapeUsed() (int, []int) {
@@ -261,4 +285,21 @@ func stressRSA() *party {
 		panic(err)
 	}
 	return &party{kind: "ssh-rsa", rcpt: id.Recipient(), id: id, name: "sshrsa:0"}
+}
+
+// stressRSARaw: an RSA identity built from a key WITHOUT precomputed CRT values
+// (as assembled from N, E, D and the primes by a JWK / HSM import): lazy
+// initialisation inside the identity would be a write to shared memory.
+func stressRSARaw() *party {
+	loadRSA()
+	k := rsaKeys[1]
+	raw := &rsa.PrivateKey{PublicKey: rsa.PublicKey{N: new(big.Int).Set(k.N), E: k.E}, D: new(big.Int).Set(k.D)}
+	for _, p := range k.Primes {
+		raw.Primes = append(raw.Primes, new(big.Int).Set(p))
+	}
+	id, err := agessh.NewRSAIdentity(raw)
+	if err != nil {
+		panic(err)
+	}
+	return &party{kind: "ssh-rsa-raw", rcpt: id.Recipient(), id: id, name: "sshrsa:raw"}
 }
